@@ -400,8 +400,10 @@ class C05(Prop):
         return cases
 
     def search_cases(self, rng):
-        for _ in range(40):
-            chunk = [{"kind": "hist", "ops": gen_history(rng, 40)} for _ in range(150)]
+        # the core collects up to 2000 cases before it looks at its deadline: keep our own
+        deadline = time.time() + (75 if self._tier == "quick" else 420)
+        while time.time() < deadline:
+            chunk = [{"kind": "hist", "ops": gen_history(rng, 40)} for _ in range(60)]
             self.prefetch(chunk, 300)
             for c in chunk:
                 yield c
